@@ -26,7 +26,11 @@ RULE = ("every genome of <= 3 (thorough: 4) contigs, plus one ignored and one un
         "list and through a FRESH object built afterwards from the caller's same dict (which must stay unchanged); several genomes over the same sizes with different "
         "label tables (sort_names, permuted orders, filter on/off) evaluated back to back inside ONE case on the in-memory path "
         "(mask_data + iter_chromosomes, get_intervals(table).as_stream()). Names with '_' both ignored (default filter) and included "
-        "(filter disabled). Non-trivial = data order differs from genome order, or an unknown / ignored / absent contig")
+        "(filter disabled). Round 7: DRESSED names - genome and data names replaced consistently by identifiers of 5..300 "
+        "characters, the unknown name by a near copy of a genome name (two characters exchanged at every distance / around "
+        "every power of two, one character replaced, truncated, extended), in-memory and streamed routes; tables whose contig "
+        "column was already ENCODED BY ANOTHER genome object (other order, fewer, more, same contigs; ignored contig at every "
+        "position): refusal or exact attribution (op mem_pre). Non-trivial = data order differs from genome order, or an unknown / ignored / absent contig")
 EXHAUSTIVE = {"quick": False, "thorough": False}
 MODEL_OPS = {"mem_pair", "iter", "iter_zip", "genome_mask", "genome_compute", "track", "ms", "ms_zip", "jaccard", "forbes", "left_join"}
 PARALLEL = 16
